@@ -10,7 +10,7 @@ import (
 	"golang.org/x/tools/go/ssa"
 )
 
-const maxInlineDepth = 6
+const maxInlineDepth = 8
 
 // setViewComp is the single ghost component holding the abstract view of every set-like object
 // (roaring bitmaps and, through cellof, every Duplex implementation).
@@ -106,7 +106,7 @@ func (vc *VC) staticCall(fr *frame, st *State, site ssa.Instruction, callee *ssa
 		vc.note("heap-pure external: " + key)
 		return vc.freshResults(st, site, resT)
 	}
-	if body.Blocks != nil && inRepo(body) {
+	if body.Blocks != nil && inRepo(body) && !noInline(body) {
 		return vc.inlineCall(fr, st, site, body, args, resT)
 	}
 	return vc.unknownCall(fr, st, site, key, resT)
@@ -322,6 +322,12 @@ func (vc *VC) appendOp(fr *frame, st *State, site ssa.Instruction, c *ssa.CallCo
 			// in place: everything outside the appended window is unchanged
 			Implies(And(fits, Or(Lt(p, Add(off, s.Len)), Ge(p, Add(off, newLen)))), Eq(Select(res, p), Select(Select(elems, s.Arr), p))),
 		), []Term{Select(res, p)})))
+		// the same facts by relative position (so that "s[i]"-shaped terms on both sides line up syntactically)
+		j := Term{"j!", SInt}
+		vc.script.Assume(Implies(st.pc, Forall([]Term{j}, And(
+			Implies(And(Le(Zero, j), Lt(j, s.Len)), Eq(Select(res, vc.sidx(off, j)), Select(Select(elems, s.Arr), vc.sidx(s.Off, j)))),
+			Implies(And(Le(s.Len, j), Lt(j, newLen)), Eq(Select(res, vc.sidx(off, j)), Select(Select(elems, add.Arr), vc.sidx(add.Off, Sub(j, s.Len))))),
+		), []Term{Select(res, vc.sidx(off, j))})))
 		if ln.sort == SInt && len(lanes) == 1 {
 			// append lemma for the set view of slices
 			y := Term{"y!", SInt}
@@ -331,7 +337,7 @@ func (vc *VC) appendOp(fr *frame, st *State, site ssa.Instruction, c *ssa.CallCo
 			if n, err := strconv.Atoi(add.Len.S); err == nil && n >= 0 && n <= 4 {
 				var alts []Term
 				for i := 0; i < n; i++ {
-					alts = append(alts, Eq(Select(addA, Add(add.Off, IntLit(int64(i)))), y))
+					alts = append(alts, Eq(Select(addA, vc.sidx(add.Off, IntLit(int64(i)))), y))
 				}
 				addMem = Or(alts...)
 			}
@@ -941,6 +947,23 @@ func (vc *VC) assumeStateAxioms(st *State) {
 // axiomRelevant: an axiom is instantiated only when the function under verification mentions one of
 // the components it talks about (keeps queries small).
 func (vc *VC) axiomRelevant(ax axiomDecl) bool {
+	// axioms of a repository package are instantiated only when the function under verification lives in
+	// that package or already touches state of that package (keeps unrelated definitions out of the query)
+	if ax.cf.PkgPath != "" {
+		top := vc.top
+		for top.Parent() != nil {
+			top = top.Parent()
+		}
+		if top.Pkg != nil && top.Pkg.Pkg.Path() == ax.cf.PkgPath {
+			return true
+		}
+		for c := range vc.comps {
+			if strings.Contains(c, ax.cf.PkgPath+".") {
+				return true
+			}
+		}
+		return false
+	}
 	if ax.c.Label == "" || !strings.Contains(ax.c.Label, ".") {
 		return true
 	}
@@ -999,7 +1022,7 @@ func (vc *VC) copyBuiltin(fr *frame, st *State, site ssa.Instruction, v Value, t
 		elems := vc.hget(st.heap, comp)
 		res := vc.script.Declare(name+":elems", ArrSort(SInt, el.SortOf()))
 		i := Term{"i!", SInt}
-		src := Select(Select(elems, sv.Arr), Add(sv.Off, i))
+		src := Select(Select(elems, sv.Arr), vc.sidx(sv.Off, i))
 		var rel Term
 		if isRefKind(el) || el.K == KIface && vc.modelIface(el) {
 			rel = And(vc.isCopy(Select(res, i), src), Implies(Ne(src, Zero), Ne(Select(res, i), src)))
@@ -1029,4 +1052,17 @@ func (vc *VC) copyBuiltin(fr *frame, st *State, site ssa.Instruction, v Value, t
 
 func (vc *VC) modelIface(t SType) bool {
 	return t.Go != nil && isModelChild(t.Go)
+}
+
+
+// noInline: generated code (the ANTLR recogniser) is never inlined; calls into it without a contract are
+// treated like calls to unspecified externals.
+func noInline(f *ssa.Function) bool {
+	for f.Parent() != nil {
+		f = f.Parent()
+	}
+	if f.Pkg != nil && f.Pkg.Pkg.Path() == repoModule+"/cypher/parser" {
+		return true
+	}
+	return false
 }
